@@ -37,7 +37,7 @@ INTERFACES = [
     ("noparams", "", None, None),
     ("returns_default_clause", "a, b=2", ":param a: the a\n:param b: the b\n:returns: the result. Defaults to a + 1", None),
 ]
-ROUTES = ("function", "method", "argparse", "call", "class_call_to_method")
+ROUTES = ("function", "method", "argparse", "argparse_interleaved", "call", "class_call_to_method")
 
 
 def bodies(maxlen):
@@ -56,14 +56,18 @@ def build_source(route, iface, body_idx, final):
     name, sig, doc, ret = INTERFACES[iface]
     stmts = [STMTS[i][1] for i in body_idx]
     fin = FINALS[final][1]
-    if route == "argparse":
+    if route in ("argparse", "argparse_interleaved"):
         tup = final == 2
         lines = ['"""', "Set CLI arguments", "", ":param argument_parser: argument parser", ":type argument_parser: ```ArgumentParser```", "",
                  ":returns: argument_parser, the result" if tup else ":returns: argument_parser",
                  ":rtype: ```Tuple[ArgumentParser, int]```" if tup else ":rtype: ```ArgumentParser```", '"""',
                  "argument_parser.description = 'Summary'",
-                 "argument_parser.add_argument('--a', type=int, help='the a', required=True)",
-                 "argument_parser.add_argument('--b', help='the b', required=True, default='x')"]
+                 "argument_parser.add_argument('--a', type=int, help='the a', required=True)"]
+        if route == "argparse_interleaved" and stmts:
+            # the first extra statement stands between the interface statements
+            lines.append(stmts[0])
+            stmts = stmts[1:]
+        lines.append("argument_parser.add_argument('--b', help='the b', required=True, default='x')")
         lines += stmts
         lines.append("return argument_parser" if final != 2 else "return argument_parser, 5")
         return "def set_cli_args(argument_parser):\n" + indent("\n".join(lines), 4) + "\n"
@@ -161,7 +165,8 @@ class C16(core.Check):
             bl = bodies(3 if self.tier == "thorough" else 2)
             self._cases = [{"route": r, "iface": i, "body": list(b), "final": f}
                            for r in ROUTES for i in range(len(INTERFACES)) for b in bl for f in range(len(FINALS))
-                           if not (r in ("argparse", "class_call_to_method") and i > 0)]
+                           if not (r in ("argparse", "argparse_interleaved", "class_call_to_method") and i > 0)
+                           and not (r == "argparse_interleaved" and not b)]
         return _Space(self._cases)
 
     def run_case(self, case):
@@ -175,19 +180,21 @@ class C16(core.Check):
         fd = tree.body[0] if route != "method" else tree.body[0].body[0]
         before = non_doc_body(fd)
         labels = [STMTS[i][0] for i in case["body"]]
-        base = {"route": route, "iface": INTERFACES[iface][0] if route != "argparse" else "argparse", "body": ">".join(labels) or "-",
+        base = {"route": route, "iface": INTERFACES[iface][0] if not route.startswith("argparse") else "argparse", "body": ">".join(labels) or "-",
                 "final": FINALS[case["final"]][0], "first": labels[0] if labels else "-", "n": len(labels)}
-        if route == "argparse":
+        if route.startswith("argparse"):
             before = [s for s in before if not _is_argparse_plumbing(s)]
         try:
             if route in ("function", "method"):
                 ir = parse.function(copy.deepcopy(fd))
                 out = emit.function(ir, function_name=None, function_type=None)
                 after = non_doc_body(ast.parse(ast.unparse(out)).body[0])
-            elif route == "argparse":
+            elif route.startswith("argparse"):
                 ir = parse.argparse_ast(copy.deepcopy(fd), function_name="set_cli_args")
                 out = emit.argparse_function(ir, function_name="set_cli_args")
-                after = [s for s in non_doc_body(ast.parse(ast.unparse(out)).body[0]) if not _is_argparse_plumbing(s)]
+                after_all = non_doc_body(ast.parse(ast.unparse(out)).body[0])
+                after = [s for s in after_all if not _is_argparse_plumbing(s)]
+                n_add = (sum(1 for s in non_doc_body(fd) if _is_add_argument(s)), sum(1 for s in after_all if _is_add_argument(s)))
             else:
                 ir = parse.function(copy.deepcopy(fd))
                 out = emit.class_(ir, emit_call=True)
@@ -203,12 +210,16 @@ class C16(core.Check):
         except Exception as e:
             return [site(False, dict(base, field="convert"), fail="raise", **core.exc_obs(e))], (src, route) if labels else None, [src, "raise"]
         b, a = dumps(before), dumps(after)
-        if (INTERFACES[iface][0] == "returns_default_clause" and case["final"] == 0 and route != "argparse" and len(a) == len(b) + 1
+        if (INTERFACES[iface][0] == "returns_default_clause" and case["final"] == 0 and not route.startswith("argparse") and len(a) == len(b) + 1
                 and a[:-1] == b and isinstance(after[-1], ast.Return)):
             # a documented returned default whose body has no final return of its own is emitted as one more return
             # statement by design; every statement of the body itself must still be there, in order
             a = a[:-1]
         sites = [site(True, dict(base, field="convert"))]
+        if route.startswith("argparse"):
+            # the interface statements themselves are regenerated: each option is registered exactly once
+            sites.append(site(n_add[0] == n_add[1], dict(base, field="options_registered_once"), fail="add_argument_count",
+                              n_before=n_add[0], n_after=n_add[1]))
         if b == a:
             sites.append(site(True, dict(base, field="body")))
         else:
@@ -254,6 +265,10 @@ def _run_class_call(self, case, src, tree):
 
 
 C16.run_class_call = _run_class_call
+
+
+def _is_add_argument(s):
+    return isinstance(s, ast.Expr) and isinstance(s.value, ast.Call) and getattr(s.value.func, "attr", None) == "add_argument"
 
 
 def _is_argparse_plumbing(s):
